@@ -252,7 +252,8 @@ class KernExporter(object):
         symbols = ""
         if not isinstance(element, spt.Rest):
             if element.tie_next and element.tie_prev:
-                symbols += "-"
+                # ("_" continues a tie; "-" is a flat)
+                symbols += "_"
             elif element.tie_next:
                 symbols += "["
             elif element.tie_prev:
